@@ -662,7 +662,7 @@ ASSUMPTIONS = [
     "a failed or interrupted fit/update leaves the client unspecified until its next successful fit (relaxation 1)",
     "direct evaluate on a scorer that another client refitted on other data is not compared (relaxation 2)",
     "hyper-parameter changes take effect at the next fit (relaxation 3)",
-    "update is compared only for chunks whose index continues the training index (relaxation 4)",
+    "update is compared for chunks that continue the training index or re-send its last labels (union of labels, newer values win, index order); chunks of another layout are not judged (relaxation 4)",
     "numba is absent: the pure-Python fallbacks of skchange run, every source line is a possible crash point",
     "exceptions are compared by type only",
     "sampling, not enumeration: a clean batch is evidence, not proof",
